@@ -50,10 +50,14 @@ theorem setCores_ok {r r' : Rec} {gid : Nat} {cs : List String} (h : setCores r 
     rw [List.any_eq_false] at hm
     intro x hx; simpa using hm x hx
 
-theorem Inv.setCores {L : Live} {ever : List AreaT} {r r' : Rec} (h : Inv L ever r) (gid : Nat) (cs : List String)
-    (hstep : Lookup.setCores r gid cs = .ok r') : Inv (L.step (.setCores gid cs)) ever r' := by
-  obtain ⟨hno, e⟩ := setCores_ok hstep
-  subst e
+/-- rewriting a gene's annotations preserves the invariant; its definition-set part only if no collection lists
+    the gene yet (`hS`), the rest always -/
+theorem Inv.rewriteCores {S : Prop} {L : Live} {ever : List AreaT} {r : Rec} (h : Inv S L ever r) (gid : Nat) (cs : List String)
+    (hS : S → ∀ x ∈ r.members, x.2 ≠ gid) :
+    Inv S (L.step (.setCores gid cs)) ever (setCoresAny r gid cs) := by
+  show Inv S (L.step (.setCores gid cs)) ever
+    { r with genes := r.genes.map (Lookup.recore gid cs), byName := r.byName.map (fun x => (x.1, Lookup.recore gid cs x.2)),
+             cdsCache := r.cdsCache.map (Lookup.recore gid cs) }
   have c := h.core
   let f := recore gid cs
   have floc : ∀ g, (f g).loc = g.loc := recore_loc gid cs
@@ -113,21 +117,21 @@ theorem Inv.setCores {L : Live} {ever : List AreaT} {r r' : Rec} (h : Inv L ever
       obtain ⟨g, hg, rfl⟩ := (hmem g').1 hg'
       rw [fid]
       exact c.sectionsComplete g hg d s ((LinkedS.congr_gene (floc g) d s).1 hl)
-    · intro x hx
-      obtain ⟨g, hg, d, hl, hd, e⟩ := c.defsSound x hx
+    · intro hS' x hx
+      obtain ⟨g, hg, d, hl, hd, e⟩ := c.defsSound hS' x hx
       have hne : g.id ≠ gid := by
         intro e'
-        have := hno x (c.defsSub x hx)
+        have := hS hS' x (c.defsSub x hx)
         rw [e] at this; exact this e'
       exact ⟨g, (hmem _).2 ⟨g, hg, recore_other cs hne⟩, d, hl, hd, e⟩
-    · intro g' hg' d hl hd
+    · intro hS' g' hg' d hl hd
       obtain ⟨g, hg, rfl⟩ := (hmem g').1 hg'
       have hl' := (Linked.congr_gene (floc g) d).1 hl
       by_cases hne : g.id = gid
-      · exact absurd hne (hno _ (c.membersComplete g hg d hl'))
+      · exact absurd hne (hS hS' _ (c.membersComplete g hg d hl'))
       · have e : f g = g := recore_other cs hne
         rw [e] at hd ⊢
-        exact c.defsComplete g hg d hl' hd
+        exact c.defsComplete hS' g hg d hl' hd
     · intro x hx
       obtain ⟨g, hg, e⟩ := c.regionKeys x hx
       exact ⟨f g, (hmem _).2 ⟨g, hg, rfl⟩, by rw [fid]; exact e⟩
@@ -139,5 +143,11 @@ theorem Inv.setCores {L : Live} {ever : List AreaT} {r r' : Rec} (h : Inv L ever
     intro hd
     show r.cdsCache.map f = r.genes.map f
     rw [h.cache.cds hd]
+
+theorem Inv.setCores {S : Prop} {L : Live} {ever : List AreaT} {r r' : Rec} (h : Inv S L ever r) (gid : Nat) (cs : List String)
+    (hstep : Lookup.setCores r gid cs = .ok r') : Inv S (L.step (.setCores gid cs)) ever r' := by
+  obtain ⟨hno, e⟩ := setCores_ok hstep
+  subst e
+  exact h.rewriteCores gid cs (fun _ => hno)
 
 end ASV.Lookup
